@@ -417,7 +417,8 @@ def run(pid, tier, seed):
           if t[0] == "ins":
             if judge_inserts([_unhex(x) for x in v["witness"]["existing"]], [_unhex(x) for x in v["witness"]["keys"]]):
               sub = any(0 < _unhex(x) < 2.3e-308 for x in v["witness"]["existing"])
-              violations.append({"sig": {"pid": pid, "part": "prepare_inserts", "subnormal_existing": sub, "msg": v["msg"][:160]},
+              violations.append({"sig": {"pid": pid, "part": "prepare_inserts", "subnormal_existing": sub,
+                                         "msg": v["msg"] if len(v["msg"]) <= 300 else v["msg"][:160] + " ... " + v["msg"][-130:]},
                                  "msg": v["msg"], "witness": v["witness"]})
           elif v.get("pid") == "C20":
             wt = {"fixture": t[1], "prefix": [], "bundles": v["bundles"], "oracle": "C20"}
